@@ -115,9 +115,12 @@ func c04Ops(seed int64, phase, writers int, root string) []c04Op {
 		w := r.Intn(writers)
 		ks := known[w]
 		switch pick := r.Intn(10); {
-		case pick == 5 && r.Chance(0.3):
+		case pick == 5 && r.Chance(0.4):
 			// one large batch (hundreds of identities): many pages and WAL frames inside one transaction
-			n := 300 + r.Intn(1100)
+			n := 300 + r.Intn(700)
+			if r.Chance(0.5) {
+				n = 1001 + r.Intn(600)
+			}
 			pts := make(data.Points, 0, n)
 			typ := []string{"arr", "tbl"}[r.Intn(2)]
 			for j := 0; j < n; j++ {
